@@ -3,6 +3,7 @@ package main
 import (
 	"fmt"
 	"go/token"
+	"go/types"
 	"sort"
 
 	"golang.org/x/tools/go/ssa"
@@ -18,10 +19,32 @@ func ruleCACHE1(p *Prog) *RuleResult {
 	fns := append([]*ssa.Function(nil), p.sourceFns()...)
 	sort.Slice(fns, func(i, j int) bool { return fname(fns[i]) < fname(fns[j]) })
 	loadAt := func(v ssa.Value) (base ssa.Value, idx ssa.Value, ok bool) {
+		for {
+			if cv, isCv := v.(*ssa.Convert); isCv {
+				v = cv.X
+				continue
+			}
+			break
+		}
 		// a positional accessor of a table counts as an element load: t.getKeyAtIndex(i)
 		if c, isC := v.(*ssa.Call); isC {
 			if g := c.Call.StaticCallee(); g != nil && g.Signature.Recv() != nil && len(c.Call.Args) == 2 && isPositionalAccessor(g) {
 				return c.Call.Args[0], c.Call.Args[1], true
+			}
+			// what a chunk answers, where the chunk was fetched from a table by key or position in the same
+			// expression: t.getContainer(k).previousAbsentValue(q) is "loaded at k"
+			var recv ssa.Value
+			if c.Call.IsInvoke() {
+				recv = c.Call.Value
+			} else if g := c.Call.StaticCallee(); g != nil && g.Signature.Recv() != nil && len(c.Call.Args) > 0 {
+				recv = c.Call.Args[0]
+			}
+			if rc, isRC := recv.(*ssa.Call); isRC {
+				if g := rc.Call.StaticCallee(); g != nil && g.Signature.Recv() != nil && len(rc.Call.Args) == 2 && g.Signature.Results().Len() == 1 {
+					if _, isI := g.Signature.Results().At(0).Type().Underlying().(*types.Interface); isI {
+						return rc.Call.Args[0], rc.Call.Args[1], true
+					}
+				}
 			}
 			return nil, nil, false
 		}
@@ -178,6 +201,11 @@ func ruleCACHE1(p *Prog) *RuleResult {
 					// some other relation (the previous element, an element of a second slice), not a cache
 					for k := range vphi.Edges {
 						if b, idx, isLoad := loadAt(vphi.Edges[k]); isLoad && !(sameIndex(idx, pphi.Edges[k]) && sameAccessPath(b, base, 0)) {
+							// loaded from the same table at the cursor's *previous* value, on an edge on which the
+							// cursor moves: that is the stale read this rule is about, not another relation
+							if sameAccessPath(b, base, 0) && idx == ssa.Value(pphi) && pphi.Edges[k] != ssa.Value(pphi) {
+								continue
+							}
 							otherRelation = true
 						}
 					}
